@@ -90,13 +90,15 @@ func Remainder(left, right value.Value) error {
 		switch right.Type() {
 		case value.IntegerType: // RTIME %= INTEGER
 			rv := value.Unwrap[*value.Integer](right)
-			if rv.Value == 0 {
+			// Multiplying to seconds may overflow to zero
+			if time.Duration(rv.Value)*time.Second == 0 {
 				return errors.WithStack(fmt.Errorf("remainder by zero"))
 			}
 			lv.Value %= (time.Duration(rv.Value) * time.Second)
 		case value.FloatType: // RTIME %= FLOAT
 			rv := value.Unwrap[*value.Float](right)
-			if time.Duration(rv.Value) == 0 {
+			// Multiplying to seconds may overflow to zero
+			if time.Duration(rv.Value)*time.Second == 0 {
 				return errors.WithStack(fmt.Errorf("remainder by zero"))
 			}
 			lv.Value %= (time.Duration(rv.Value) * time.Second)
